@@ -65,8 +65,15 @@ pub fn id_regex_pred(i: usize, b: &[u8; 4]) -> bool {
         _ => has(b"C\x00"),
     }
 }
-pub const PL_REGEX: [&str; 8] = ["^hello", "World$", "a.c", "[0-9]+", "foo|abc", "l{2}o w", " abc", "o $| a"];
+/// the last entry switches the case flag inside the pattern: with ignoreCase the stored regex is "(?i)" + this, and only that added prefix may be
+/// taken off again when the filter is serialised
+pub const PL_REGEX: [&str; 9] = ["^hello", "World$", "a.c", "[0-9]+", "foo|abc", "l{2}o w", " abc", "o $| a", "(?-i)hello (?i)world"];
 pub fn pl_regex_pred(i: usize, t: &str, ignore_case: bool) -> bool {
+    if i == 8 {
+        // "hello " as written, "world" in any case - whatever the filter's own case flag says
+        let b = t.as_bytes();
+        return (0..b.len().saturating_sub(10)).any(|p| &b[p..p + 6] == b"hello " && b[p + 6..p + 11].eq_ignore_ascii_case(b"world"));
+    }
     let lower;
     let (t, ci) = if ignore_case {
         lower = t.to_ascii_lowercase();
@@ -308,7 +315,7 @@ pub const APIDS: [&[u8; 4]; 12] = [b"APID", b"AP\0\0", b"SYS\0", b"ABCD", b"CTAP
 /// literal ids with regex meta characters: only meaningful with the explicit `...IsRegex: false` flag (the auto detection
 /// would read them as regular expressions: A.B also matches AxB, A+B matches AAB)
 pub const ID_LITS_META: [&str; 2] = ["A.B", "A+B"];
-pub const TEXTS: [&str; 10] = ["", "hello world", "Hello World", "HELLO WORLD 42", "abc", "ABC", "x abc y", "foo bar 123", "a.c", "aXc"];
+pub const TEXTS: [&str; 11] = ["", "hello world", "Hello World", "HELLO WORLD 42", "abc", "ABC", "x abc y", "foo bar 123", "a.c", "aXc", "hello WORLD"];
 pub const ID_LITS: [&str; 10] = ["ECU1", "ECU2", "EC", "E", "ABCD", "ABCDE", "APCT", "AP", "SYS", "ZZU1"];
 /// the entries with blanks at an end tell a front-end that trims the criterion from one that keeps it ("abc" does not contain " abc")
 pub const PL_TEXTS: [&str; 11] = ["hello", "Hello", "abc", "a.c", "WORLD", "o w", "42", " abc", "abc ", "hello ", " "];
@@ -653,7 +660,7 @@ fn sweep_messages(all_vmm: bool) -> Vec<(DltMessage, String)> {
     let mut idx = 0u32;
     let vmms: Vec<u8> = if all_vmm { (0..=255u8).collect() } else { (0..=255u8).step_by(7).chain([0x41u8, 0x26, 0x16, 0x01, 0x61, 0x71, 0xf1, 0x06]).collect() };
     for ecu in ECUS.iter().take(5) {
-        for text in [TEXTS[1], TEXTS[2], TEXTS[6], TEXTS[8]] {
+        for text in [TEXTS[1], TEXTS[2], TEXTS[6], TEXTS[8], TEXTS[10]] {
             for lc in [0u32, 1, 2] {
                 v.push((mk_msg(idx, ecu, None, lc, text, false), text.to_string()));
                 idx += 1;
